@@ -46,17 +46,20 @@ EXPLANATION = ("Proved in Lean for every number of worker threads and every sche
                "fail closed) plus an explicit generated worker/main phase table with caller lists.  Partial: the theorem is about the "
                "extracted access/lock table, not about the C++ memory model; objects shared read-only (const Settings&, Library, file "
                "lists) are covered only by the obligation that their classes have no mutable state / const_casts / pimpl writes in "
-               "const members; function-local statics and globals in lib/ and externals are enumerated in the evidence but NOT proved "
-               "race-free; std::cout interleaving, third-party code (tinyxml2, picojson, simplecpp internals), the libstdc++ "
-               "implementation, signal handlers and deadlock freedom are outside.  ThreadSanitizer runs (thorough tier) validate the "
-               "table and search for concrete racy schedules; they never discharge an obligation.")
+               "const members; objects with static storage duration are enumerated from the built objects and each non-const one is "
+               "classified (synchronisation object / no textual write outside its initialiser / examined with a re-checked condition; "
+               "fail closed on a new one) but NOT proved race-free — one assumption line each; std::cout interleaving, third-party code (tinyxml2, picojson, simplecpp internals), the libstdc++ "
+               "implementation, signal handlers and deadlock freedom are outside.  ThreadSanitizer runs (thorough tier; quick tier whenever the "
+               "tsan build is up to date, otherwise recorded as skipped) validate the table and the worker/main phase classification and "
+               "search for concrete racy schedules; they never discharge an obligation.")
 THEOREMS_GENERAL = ["Cppcheck.Lockset.reach_no_race", "Cppcheck.Lockset.lockset_no_race",
                     "Cppcheck.Lockset.structured_paths_disciplined", "Cppcheck.Lockset.structured_no_race",
                     "Cppcheck.Lockset.race_iff_raceB", "Cppcheck.Lockset.run_is_reachable",
                     "Cppcheck.Lockset.undisciplined_table_races", "Cppcheck.Lockset.unguarded_main_phase_event_is_fine",
                     "Cppcheck.Lockset.unguarded_worker_event_rejected"]
 THEOREMS_TABLE = ["Cppcheck.Lockset.extracted_table_disciplined", "Cppcheck.Lockset.extracted_no_race",
-                  "Cppcheck.Lockset.extracted_flat_no_race", "Cppcheck.Lockset.extracted_anchor_guards"]
+                  "Cppcheck.Lockset.extracted_flat_no_race", "Cppcheck.Lockset.extracted_anchor_guards",
+                  "Cppcheck.Lockset.extracted_table_runs", "Cppcheck.Lockset.extracted_witness_unlocked_races"]
 THEOREMS = THEOREMS_GENERAL + THEOREMS_TABLE
 MODULES = ["Cppcheck.Props.C16", "Cppcheck.Props.C16Table"]
 
@@ -282,6 +285,25 @@ def gen_lean(M):
     L.append("def lockTable : StmtTable := workerEvents.map (·.2)")
     L.append("def mainTable : StmtTable := mainEvents.map (·.2)")
     L.append("")
+    # an event whose canonical path starts `acq m, write x, …`: used by `extracted_table_runs` (the extracted table really executes,
+    # a second worker blocks on the mutex) and `extracted_witness_unlocked_races` (the same accesses without the lock race)
+    def some_path(ir):
+        t = ir[0]
+        if t == "skip":
+            return []
+        if t == "acc":
+            return [(ir[1], ir[2])]
+        if t == "seq":
+            return some_path(ir[1]) + some_path(ir[2])
+        if t == "locked":
+            return [("acq", ir[1])] + some_path(ir[2]) + [("rel", ir[1])]
+        return some_path(ir[1])
+    wit = [i for i, e in enumerate(M["worker"]) if len(some_path(e["ir"])) >= 3 and some_path(e["ir"])[0][0] == "acq" and some_path(e["ir"])[1][0] == "write"]
+    pref = [i for i in wit if M["worker"][i]["name"] == "SyncLogForwarder::reportOut"]
+    L.append("/-- index in `workerEvents` of an event whose canonical path starts with `acq m, write x` (%s) -/" %
+             (M["worker"][(pref or wit)[0]]["name"] if (pref or wit) else "none found"))
+    L.append("def witnessEvent : Nat := %d" % ((pref or wit or [len(M["worker"])])[0]))
+    L.append("")
     L.append("/-- (location, mutex) pairs the property record names as protection; checked against `guardOf` -/")
     pairs = []
     for l, m in ANCHOR_GUARDS.items():
@@ -382,6 +404,78 @@ def check_public_fields(M):
     return bad
 
 
+def check_member_pointers(M):
+    """a member function of a shared class that is reached through a pointer to member / std::bind / std::mem_fn would be classified
+    by who textually names it, not by who calls it: fail closed on `&Class::member` for every extracted class"""
+    bad = []
+    if not M["sites"]:
+        return bad
+    names = {}
+    for cls, c in M["ex"].classes.items():
+        if cls == "::":
+            continue
+        for m in c["methods"]:
+            if m["kind"] == "method":
+                names.setdefault(cls, set()).add(m["name"])
+    for rel, text in M["sites"].files.items():
+        for cls, ms in names.items():
+            for m in re.finditer(r"&\s*(?:::)?%s\s*::\s*(\w+)\b(?!\s*::)" % re.escape(cls), text):
+                if m.group(1) in ms:
+                    line = text.count("\n", 0, m.start()) + 1
+                    bad.append("%s:%d: pointer to member function %s::%s" % (rel, line, cls, m.group(1)))
+        for m in re.finditer(r"\bstd::mem_fn\s*\(", text):
+            line = text.count("\n", 0, m.start()) + 1
+            tail = text[m.end():m.end() + 80]
+            if any(re.search(r"\b%s\s*::" % re.escape(c), tail) for c in names):
+                bad.append("%s:%d: std::mem_fn on a member of an extracted class" % (rel, line))
+    return bad
+
+
+MAIN_OBJECTS = re.compile(r"^(cli_cppcheckexecutor|cli_cmdlineparser|cli_main|cli_filelister|cli_signalhandler|cli_stacktrace|cli_sehwrapper|"
+                          r"cli_cppcheckexecutorseh|cli_cppcheckexecutorsig|cli_singleexecutor|cli_processexecutor|fe_\w+)\.o$")
+
+
+def check_phase_objects(ctx, M):
+    """independent re-check of the phase table at the level of the linker: a member function classified main / other must not be
+    referenced (undefined symbol = call or address taken; weak definition = inline copy) by an object file that holds worker
+    code other than the object that defines it"""
+    b = build_repo.bdir("o1")
+    objs = sorted(os.path.join(b, "obj", f) for f in os.listdir(os.path.join(b, "obj")) if f.endswith(".o"))
+    rc, out, err = core.sh(["nm", "-C"] + objs, timeout=120)
+    refs = {}     # demangled function name (without parameter list) -> {object: set(symbol types)}
+    cur = None
+    for line in out.split("\n"):
+        if line.endswith(".o:"):
+            cur = os.path.basename(line[:-1])
+            continue
+        m = re.match(r"^\s*(?:[0-9a-f]+)?\s+([UuWwTt]) (.*)$", line)
+        if not m or cur is None:
+            continue
+        nm = re.sub(r"\[abi:cxx11\]", "", m.group(2))
+        nm = re.sub(r"\(.*$", "", nm)
+        refs.setdefault(nm, {}).setdefault(cur, set()).add(m.group(1))
+    bad, rows = [], []
+    for (cls, name), info in M["phases"].items():
+        if cls == "::" or info["phase"] not in ("main", "other"):
+            continue
+        kinds = set(m["kind"] for m in M["ex"].classes[cls]["methods"] if m["name"] == name)
+        if kinds != {"method"} or (cls, name) == ("ThreadExecutor", "check"):
+            continue
+        r = refs.get("%s::%s" % (cls, name), {})
+        definers = [o for o, ts in r.items() if "T" in ts or "t" in ts]
+        users = sorted(o for o, ts in r.items() if ts & {"U", "W", "w", "u"})
+        worker_users = [o for o in users if not MAIN_OBJECTS.match(o) and o not in definers]
+        rows.append(dict(member="%s::%s" % (cls, name), phase=info["phase"], defined_in=definers, referenced_by=users))
+        inline_only = all(m["file"].endswith((".h", ".hpp")) for m in M["ex"].classes[cls]["methods"] if m["name"] == name)
+        if not r and inline_only:
+            rows[-1]["note"] = "defined inline in a header and inlined everywhere: no symbol to re-check"
+        elif not r:
+            bad.append("%s::%s: no symbol found in the built objects (cannot re-check its phase)" % (cls, name))
+        if worker_users:
+            bad.append("%s::%s is classified %s but the object(s) %s reference it" % (cls, name, info["phase"], worker_users))
+    return bad, rows
+
+
 def check_readonly_shared(M):
     """mutable members, const_casts and pimpl writes in the classes that workers share read-only"""
     bad, listing = [], []
@@ -433,11 +527,138 @@ def check_readonly_shared(M):
     return bad, listing
 
 
+def _chk_picojson(texts):
+    """the global error string is touched only by the stream operator>> / get_last_error; both may only be used by the two
+    configuration loaders, and those may only be called from main-thread code"""
+    bad = []
+    allowed = {"lib/addoninfo.cpp", "lib/settings.cpp", "lib/importproject.cpp"}
+    for (lab, t, _, _) in texts:
+        if lab.startswith("(") or lab.startswith("externals/"):
+            continue
+        uses = bool(re.search(r"\b(get_last_error|set_last_error)\b", t))
+        for m in re.finditer(r"\bpicojson::value\s+(\w+)\s*;", t):
+            if re.search(r">>\s*%s\b" % re.escape(m.group(1)), t):
+                uses = True
+        if uses and lab not in allowed:
+            bad.append("%s uses picojson's stream operator>> / get_last_error (global error string)" % lab)
+    for fn, home in (("getAddonInfo\\s*\\(", "lib/addoninfo."), ("loadCppcheckCfg\\s*\\(", "lib/settings."), ("ImportProject\\b", "lib/importproject.")):
+        for (lab, t, _, _) in texts:
+            if lab.startswith("(") or lab.startswith(home) or lab.startswith("externals/"):
+                continue
+            if re.search(r"\b%s" % fn, t):
+                ph = [pp for rx, pp, why in X.FILE_RULES if re.search(rx, lab)]
+                if not ph or ph[0] != "main":
+                    bad.append("%s references %s, which uses picojson's global error string, from code that is not main-thread only" % (lab, fn.split("\\")[0]))
+    return bad
+
+
+def _chk_tinyxml_bool(texts):
+    bad = []
+    for (lab, t, _, _) in texts:
+        if lab.startswith("externals/tinyxml2/") or lab.startswith("("):
+            continue
+        if re.search(r"\bSetBoolSerialization\b", t):
+            bad.append("%s calls tinyxml2::XMLUtil::SetBoolSerialization (writes the global writeBoolTrue / writeBoolFalse)" % lab)
+    return bad
+
+
+# objects with static storage that ARE written after their initialisation, or whose declaration is not in the scanned sources:
+# each needs an entry here (regex on the demangled symbol, reason, optional check); anything else that is written fails the obligation
+STATIC_EXAMINED = [
+    (r"^picojson::last_error_t<bool>::s", "picojson's global error string: written only by picojson::set_last_error (stream operator>> of picojson::value); "
+                                          "checked on every run: operator>> / get_last_error are used only in lib/addoninfo.cpp, lib/settings.cpp and lib/importproject.cpp "
+                                          "(getAddonInfo, loadCppcheckCfg, ImportProject), which are referenced only from cli/cmdlineparser.cpp (main thread, before the workers start)",
+     _chk_picojson),
+    (r"^tinyxml2::XMLUtil::writeBool(True|False)$", "written only by tinyxml2::XMLUtil::SetBoolSerialization; checked on every run: never referenced from lib/ cli/ frontend/",
+     _chk_tinyxml_bool),
+    (r"^verifhook::workerFault\(\)::wf$", "verification hook (DANMAR_CPPCHECK_VERIF): written only in the forked, single-threaded worker of the process executor", None),
+    (r"^(signalOutput|bStackBelowHeap|mytstack)$", "cli/signalhandler.cpp: written on the main thread while the handlers are registered, before the analysis starts; "
+                                                   "read inside the signal handler (signal handlers are outside the model)", None),
+    (r"^std::_Sp_make_shared_tag::_S_ti\(\)::__tag$", "libstdc++ type-tag object of std::make_shared, never written", None),
+]
+WRITE_CALLS = ("insert|emplace|emplace_back|emplace_front|emplace_hint|push_back|push_front|pop_back|pop_front|clear|erase|swap|assign|resize|reserve|"
+               "reset|store|exchange|fetch_add|fetch_sub|append|merge|splice|sort|remove|remove_if|unique|try_emplace|insert_or_assign")
+
+
+def enclosing_block(text, pos):
+    """(begin, end) of the innermost brace block that contains `pos`"""
+    depth = 0
+    i = pos
+    while i > 0:
+        i -= 1
+        c = text[i]
+        if c == "}":
+            depth += 1
+        elif c == "{":
+            if depth == 0:
+                break
+            depth -= 1
+    b = i
+    depth = 0
+    j = pos
+    n = len(text)
+    while j < n:
+        c = text[j]
+        if c == "{":
+            depth += 1
+        elif c == "}":
+            if depth == 0:
+                break
+            depth -= 1
+        j += 1
+    return b, j
+
+
+def write_sites(name, is_map, texts, skip):
+    """textual writes to the object `name` in the given (label, text, begin, end) ranges; `skip` = (label, begin, end) of the declaration"""
+    n = re.escape(name)
+    pats = [r"(?<![\w.>])%s\s*(?:\[[^\]]*\]\s*)*(?:=(?!=)|\+=|-=|\*=|/=|\|=|&=|\^=|<<=|>>=|\+\+|--)" % n,
+            r"(?:\+\+|--)\s*(?:\w+::)*%s\b" % n,
+            r"(?<![\w.>])%s\s*(?:\[[^\]]*\]\s*)*(?:\.|->)\s*(?:%s)\s*\(" % (n, WRITE_CALLS),
+            r"&\s*(?:\w+::)*%s\b(?!\s*\()" % n]
+    if is_map:
+        pats.append(r"(?<![\w.>])%s\s*\[" % n)
+    rx = re.compile("|".join("(?:%s)" % p for p in pats))
+    out = []
+    for (label, text, b, e) in texts:
+        for m in rx.finditer(text, b, e):
+            if skip and label == skip[0] and skip[1] <= m.start() < skip[2]:
+                continue
+            # `&&` (logical and / rvalue reference) is not an address-of
+            if m.group(0).startswith("&") and m.start() > 0 and text[m.start() - 1] == "&":
+                continue
+            # `p = &obj;` where p is declared as pointer to const in the same file: a read-only alias
+            if m.group(0).startswith("&"):
+                lhs = re.search(r"(\w+)\s*=\s*$", text[max(0, m.start() - 60):m.start()])
+                if lhs and re.search(r"\bconst\b[^;=()]*\*\s*%s\b" % re.escape(lhs.group(1)), text):
+                    continue
+            line = text.count("\n", 0, m.start()) + 1
+            out.append("%s:%d: %s" % (label, line, " ".join(text[m.start():m.end() + 20].split())[:60]))
+    return out
+
+
 def static_storage(ctx):
-    """objects with static storage duration that live in writable sections of the built objects (evidence only)"""
+    """objects with static storage duration that live in writable sections of the built objects: enumerated from the object
+    files of the working tree (nm), each classified; a non-const one that is written somewhere and is not in STATIC_EXAMINED
+    fails the obligation (fail closed).  NONE of them is covered by the Lean theorem."""
     b = build_repo.bdir("o1")
     objs = sorted(os.path.join(b, "obj", f) for f in os.listdir(os.path.join(b, "obj")) if f.endswith(".o") and not f.startswith("cli_main"))
     rc, out, err = core.sh(["nm", "-C", "--defined-only"] + objs, timeout=120)
+    # the classification is a function of the symbol list and of the sources: cached under that key
+    hh = hashlib.sha256(re.sub(r"^[0-9a-f]+ ", "", out, flags=re.M).encode())
+    hh.update(open(os.path.abspath(__file__), "rb").read())
+    for d in ("lib", "cli", "frontend", "externals/simplecpp", "externals/tinyxml2", "externals/picojson"):
+        dp = os.path.join(REPO, d)
+        for fn in sorted(os.listdir(dp)):
+            if fn.endswith((".h", ".hpp", ".cpp")):
+                hh.update(fn.encode())
+                hh.update(open(os.path.join(dp, fn), "rb").read())
+    cpath = os.path.join(X.CACHE, "statics-%s.json" % hh.hexdigest()[:24])
+    if os.path.exists(cpath):
+        try:
+            return json.load(open(cpath))
+        except Exception:
+            pass
     cur = None
     syms = []
     guards = set()
@@ -468,31 +689,48 @@ def static_storage(ctx):
                         return p
         return None
     hdr_text = ""
+    all_texts = []
     for d in ("lib", "cli", "frontend", "externals/simplecpp", "externals/tinyxml2", "externals/picojson"):
         dp = os.path.join(REPO, d)
         for fn in sorted(os.listdir(dp)):
             if fn.endswith((".h", ".hpp")):
                 hdr_text += X.strip_comments(open(os.path.join(dp, fn), errors="replace").read()) + "\n"
+            elif fn.endswith(".cpp"):
+                pp = os.path.join(dp, fn)
+                srcs[pp] = X.strip_comments(open(pp, errors="replace").read())
+                all_texts.append(("%s/%s" % (d, fn), srcs[pp], 0, len(srcs[pp])))
+    all_texts.append(("(headers)", hdr_text, 0, len(hdr_text)))
     out_list = []
     seen_u = set()
+    unclassified = []
     for (obj, ty, name) in syms:
         if ty == "u":               # one object per program (inline function / template static), listed once
             if name in seen_u:
                 continue
             seen_u.add(name)
         p = src_of(obj)
-        if p and p not in srcs:
-            srcs[p] = X.strip_comments(open(p, errors="replace").read())
         short = re.sub(r"\[abi:cxx11\]", "", name).split("::")[-1]
         short = re.sub(r"\(.*", "", short)
         is_const = False
         decl = ""
+        where = None
         rx = re.compile(r"^[^\n;{}()]*\b%s\b\s*(\[[^\]]*\])?\s*(=|\{|;|\()" % re.escape(short), re.M)
-        for text in ([srcs[p]] if p else []) + [hdr_text]:
+        for (label, text) in ([(p.replace(REPO + "/", ""), srcs[p])] if p and p in srcs else []) + [("(headers)", hdr_text)]:
             cands = [m for m in rx.finditer(text) if not re.search(r"\b(return|using|typedef|case)\b", m.group(0))]
             if cands:
                 pick = [m for m in cands if re.search(r"\bstatic\b|\bthread_local\b", m.group(0))] or cands
                 decl = " ".join(pick[0].group(0).split())[:100]
+                # the declaration statement ends at the next `;` on brace level 0 (skips an initialiser list)
+                de, depth = pick[0].end(), 0
+                while de < len(text):
+                    if text[de] in "{(":
+                        depth += 1
+                    elif text[de] in "})":
+                        depth -= 1
+                    elif text[de] == ";" and depth <= 0:
+                        break
+                    de += 1
+                where = (label, text, pick[0].start(), de)
                 is_const = bool(re.search(r"\bconst(expr)?\b(?!\s*char\s*\*\s*\w)|\*\s*const\b", decl)) or \
                     bool(re.search(r"\bconst\s+char\s*\*\s*const\b", decl))
                 # `static const char *p = ...` : pointer to const, the pointer itself is written once at initialisation
@@ -500,14 +738,60 @@ def static_storage(ctx):
                     is_const = True
                 break
         kind = "function-local" if "::" in name and "(" in name else "namespace-scope/class-static"
-        out_list.append(dict(object=obj if ty != "u" else "(inline, several objects)", symbol=name[:140], section=ty, kind=kind,
-                             guarded_init=(obj, name) in guards, declared_const=is_const, decl=decl))
+        rec = dict(object=obj if ty != "u" else "(inline, several objects)", symbol=name[:140], section=ty, kind=kind,
+                   guarded_init=(obj, name) in guards, declared_const=is_const, decl=decl)
+        if not is_const:
+            ex = [(why, chk) for (rxp, why, chk) in STATIC_EXAMINED if re.search(rxp, name)]
+            if ex:
+                rec["class"], rec["why"] = "examined", ex[0][0]
+                probs = ex[0][1](all_texts) if ex[0][1] else []
+                if probs:
+                    rec["class"], rec["why"] = "UNCLASSIFIED", "the condition under which this object was examined no longer holds: " + "; ".join(probs[:3])
+            elif re.search(r"\bstd::(atomic|mutex)\b|\batomic<", decl):
+                rec["class"], rec["why"] = "synchronisation", "std::atomic / std::mutex object"
+            elif where is None:
+                rec["class"], rec["why"] = "UNCLASSIFIED", "no declaration found in the scanned sources"
+            else:
+                label, text, ds, de = where
+                if kind == "function-local":
+                    bb, be = enclosing_block(text, ds)
+                    ranges = [(label, text, bb, be)]
+                elif ty in "bd" and re.search(r"\bstatic\b", decl) or "(anonymous namespace)" in name:
+                    ranges = [(label, text, 0, len(text))]
+                else:
+                    ranges = all_texts
+                ws = write_sites(short, bool(re.search(r"\bmap\s*<", decl)), ranges, (label, ds, de))
+                if ws:
+                    rec["class"], rec["why"] = "UNCLASSIFIED", "written outside its initialiser: " + "; ".join(ws[:4])
+                else:
+                    rec["class"] = "init-only"
+                    rec["why"] = ("no textual write (assignment, ++/--, mutating member call, address-of%s) outside its initialiser in %s; "
+                                  "initialised %s" % (", operator[] of a map" if re.search(r"\bmap\s*<", decl) else "",
+                                                      "the enclosing function" if kind == "function-local" else
+                                                      ("its translation unit" if len(ranges) == 1 else "lib/ cli/ frontend/ externals/"),
+                                                      "thread-safely on first use ([stmt.dcl]/4)" if kind == "function-local" else "before main"))
+            if rec["class"] == "UNCLASSIFIED":
+                unclassified.append("%s (%s): %s" % (name[:100], rec["object"], rec["why"]))
+        out_list.append(rec)
     mutable = [s for s in out_list if not s["declared_const"]]
-    return dict(total=len(out_list), declared_const=len(out_list) - len(mutable), not_declared_const=len(mutable),
-                note="objects with static storage duration in writable sections of the objects built from the working tree; "
+    result = dict(total=len(out_list), declared_const=len(out_list) - len(mutable), not_declared_const=len(mutable),
+                classes={k: sum(1 for s in mutable if s.get("class") == k) for k in ("init-only", "synchronisation", "examined", "UNCLASSIFIED")},
+                unclassified=unclassified,
+                note="objects with static storage duration in writable sections of the objects built from the working tree (nm); "
                      "`declared_const` = the defining declaration found in the source says const/constexpr (initialised once: "
-                     "dynamic initialisation before main or thread-safe magic static).  NONE of these is proved race-free by C16.",
-                not_declared_const_list=mutable[:80])
+                     "dynamic initialisation before main or thread-safe magic static).  The non-const ones are classified by a textual "
+                     "write scan (fail closed on an unclassified one).  NONE of these is proved race-free by the Lean theorem.",
+                not_declared_const_list=mutable[:120])
+    os.makedirs(X.CACHE, exist_ok=True)
+    for fn in os.listdir(X.CACHE):
+        if fn.startswith("statics-"):
+            try:
+                os.remove(os.path.join(X.CACHE, fn))
+            except OSError:
+                pass
+    json.dump(result, open(cpath + ".tmp%d" % os.getpid(), "w"))
+    os.replace(cpath + ".tmp%d" % os.getpid(), cpath)
+    return result
 
 
 # ---- translator self-tests (corpus) ----------------------------------------------------------------------------
@@ -763,10 +1047,39 @@ def run(ctx, res):
     res.extra["main_events"] = [dict(event=e["name"], where="%s:%d-%d" % (e["file"], e["line_b"], e["line_e"]), justification=e["why"],
                                      unguarded=sorted(set(l for (k, l, h) in X.accesses(e["ir"]) if not h and (M["guards"].get(l)))))
                                 for e in M["main"]]
+    bad = check_member_pointers(M)
+    res.oblig("translator:no-member-function-pointers", not bad, "translation", "\n".join(bad[:20]))
     try:
-        res.extra["static_storage_not_proved"] = static_storage(ctx)
+        bad, rows = check_phase_objects(ctx, M)
+        res.extra["phase_object_recheck"] = rows
+        res.oblig("phase:object-level-recheck", not bad, "translation", "\n".join(bad[:20]))
+    except Exception as ex:
+        res.oblig("phase:object-level-recheck", False, "translation", repr(ex))
+    try:
+        st = static_storage(ctx)
+        res.extra["static_storage_not_proved"] = st
+        res.oblig("statics:mutable-statics-classified", not st["unclassified"], "translation",
+                  "objects with static storage duration that are not const, are written outside their initialiser (or have no declaration in "
+                  "the scanned sources) and have not been examined — a worker could share them unsynchronised:\n" + "\n".join(st["unclassified"][:20]))
+        for x in st["not_declared_const_list"]:
+            res.assumptions.append("static storage, NOT covered by the theorem: %s [%s] — %s: %s" % (x["symbol"][:90], x["object"], x.get("class"), x.get("why", "")[:260]))
+        res.assumptions.append("static storage: the other %d objects in writable sections are declared const/constexpr in the source (dynamic initialisation before "
+                               "main or thread-safe magic static); not checked further" % st["declared_const"])
     except Exception as ex:
         res.extra["static_storage_not_proved"] = dict(error=repr(ex))
+        res.oblig("statics:mutable-statics-classified", False, "translation", repr(ex))
+    res.assumptions.append("read-only sharing (settings, library data, cached paths): const Settings& (with Library, Platform, Standards, AddonInfo) and the file lists are "
+                           "covered only by the textual obligation readonly_shared_has_no_mutable_state (no unexamined `mutable`, no const_cast to these types, no write "
+                           "through Library::mData in const members), not by the Lean theorem")
+    res.assumptions.append("phase table: a member function is worker-phase iff it is virtual or referenced from the files/functions listed in c16_extract.FILE_RULES / "
+                           "CCE_WORKER_REGIONS; re-checked at object-file level (phase:object-level-recheck) and dynamically by the TSan method pairs")
+    for e in M["main"]:
+        ung = sorted(set(l for (k, l, h) in X.accesses(e["ir"]) if not h and M["guards"].get(l)))
+        if ung and e["kind"] == "method":
+            res.assumptions.append("main-phase event %s accesses %s without its guard; assumed unreachable from workers because: %s" % (e["name"], ung, e["why"][:300]))
+    res.assumptions.append("the theorem is about the extracted access/lock table and a sequentially consistent interleaving model; for programs whose only "
+                           "synchronisation is mutexes and fork/join every happens-before race of the C++ memory model shows up as two adjacent conflicting "
+                           "accesses of some interleaving (data-race-free theorem, Adve & Hill / Boehm & Adve PLDI 2008) — used, not proved here")
     # proofs: general theorems first (independent of the generated table), then the table theorems
     # one lake invocation in the normal case (the lake lock is shared with every other check); when it fails the two
     # modules are built separately so that a broken generated table does not hide the state of the general theorems
@@ -780,14 +1093,40 @@ def run(ctx, res):
         core.prove(ctx, res, MODULES[1:], THEOREMS_TABLE)
     res.extra["quick_s"] = round(time.time() - t0, 1)
     undis = [o for o in res.obligations if not o["ok"]]
-    if ctx.tier == "thorough" or (undis and os.environ.get("C16_SEARCH", "1") == "1" and os.path.exists(build_repo.cppcheck_bin("tsan"))):
-        # thorough tier, or violation search after a broken obligation (only if the tsan build already exists: its cold build
-        # takes minutes and belongs to the thorough tier)
+    if ctx.tier == "thorough":
         exe = ctx.build_repo("tsan")
         tsan_harness(ctx, res)
         tsan_pairs(ctx, res, M)
-        runs = thorough_runs(ctx) if ctx.tier == "thorough" else thorough_runs(ctx)[:6]
-        tsan_cli(ctx, res, M, exe, runs)
+        tsan_cli(ctx, res, M, exe, thorough_runs(ctx))
+        return
+    # quick tier: the dynamic tie (detector controls + all pairs of worker-phase member functions + a few CLI runs) runs whenever the
+    # -fsanitize=thread build of the working tree is up to date or needs at most a handful of translation units; its cold build
+    # (minutes) belongs to the thorough tier.  Skipping is recorded as an explicit assumption, never silently.
+    stale = tsan_staleness()
+    res.extra["tsan_quick"] = dict(stale_steps=stale)
+    if stale is None or stale > (40 if undis else 6):
+        res.assumptions.append("quick tier: the -fsanitize=thread build of the working tree is %s — the dynamic tie (TSan controls, method pairs, CLI runs) was "
+                               "SKIPPED in this run; `./check.py C16 --tier thorough` builds it and runs the tie" %
+                               ("missing" if stale is None else "stale (%d build steps)" % stale))
+        return
+    exe = ctx.build_repo("tsan")
+    tsan_harness(ctx, res)
+    tsan_pairs(ctx, res, M)
+    tsan_cli(ctx, res, M, exe, thorough_runs(ctx)[:6 if undis else 3])
+    res.extra["tsan_quick"]["ran"] = True
+
+
+def tsan_staleness():
+    """number of build steps the tsan variant needs (0 = up to date), None if it was never built"""
+    b = build_repo.bdir("tsan")
+    if not os.path.exists(os.path.join(b, "bin", "cppcheck")):
+        return None
+    with build_repo.Lock("repo-tsan"):
+        build_repo.write_ninja("tsan")
+        r = subprocess.run(["ninja", "-C", b, "-n"], stdout=subprocess.PIPE, stderr=subprocess.STDOUT, text=True)
+    if "no work to do" in r.stdout:
+        return 0
+    return max(1, len(re.findall(r"^\[\d+/\d+\]", r.stdout, re.M)))
 
 
 def replay(ctx, res, rp):
